@@ -187,6 +187,11 @@ impl Watcher {
 
         let uuid = extended_appointment.uuid();
 
+        // The locator cache lock is held from here to the insertion, so that checking for a tracker, charging the
+        // slots and storing the appointment are a single critical section with respect to other submissions (the
+        // same appointment sent twice is charged once) and to the cache update of a block being connected.
+        let locator_cache = self.locator_cache.lock().unwrap();
+
         if self.responder.has_tracker(uuid) {
             log::info!("Tracker for {uuid} already found in Responder");
             return Err(AddAppointmentFailure::AlreadyTriggered);
@@ -203,12 +208,7 @@ impl Watcher {
         // This will hang, the request will timeout but be accepted. However, the user will not be handed the receipt.
         // This could be fixed adding a thread to take care of storing while the main thread returns the receipt.
         // Not fixing this atm since working with threads that call self.method is surprisingly non-trivial.
-        match self
-            .locator_cache
-            .lock()
-            .unwrap()
-            .get(&extended_appointment.locator())
-        {
+        match locator_cache.get(&extended_appointment.locator()) {
             // Appointments that were triggered in blocks held in the cache
             Some(dispute_tx) => {
                 self.store_triggered_appointment(uuid, &extended_appointment, user_id, dispute_tx);
@@ -504,15 +504,16 @@ impl chain::Listen for Watcher {
             .map(|(_, tx)| (Locator::new(tx.compute_txid()), (*tx).clone()))
             .collect();
 
-        self.locator_cache
-            .lock()
-            .unwrap()
-            .update(*header, &locator_tx_map);
+        // The cache lock is kept while the breaches of this block are handled, so that an appointment being added
+        // (`add_appointment` holds it from its tracker check to its insertion) sees either none or all of it.
+        let mut locator_cache = self.locator_cache.lock().unwrap();
+        locator_cache.update(*header, &locator_tx_map);
 
         // Get the breaches found in this block, handle them, and delete invalid ones.
         if let Some(invalid_breaches) = self.handle_breaches(self.get_breaches(locator_tx_map)) {
             self.gatekeeper.delete_appointments(invalid_breaches, false);
         }
+        drop(locator_cache);
 
         // Update last known block
         self.last_known_block_height
